@@ -47,7 +47,7 @@ func VH_C12_run() {
 	h.WithTmpDir(tmp)
 
 	// the task's contexts
-	nctx := zz.Len("ncontexts", 1, 2)
+	nctx := zz.Len("ncontexts", 0, 2)
 	var ctxs []bctx.BindingContext
 	want := ""
 	for i := 0; i < nctx; i++ {
